@@ -191,3 +191,96 @@ Proof.
              (Qcleb y0 ((c + e) * half)) eqn:C, (Qcltb ((c + e) * half) y1) eqn:D; cbn; try reflexivity.
     exfalso. qb2p. destruct H as [H|[H|[H|H]]]; qlra.
 Qed.
+
+(* ====================== 4. orientation and start vertex do not matter ====================== *)
+Definition tog (p : Pt) (e : Pt * Pt) : bool := crosses p (fst e) (snd e).
+Fixpoint par (p : Pt) (l : list (Pt * Pt)) : bool :=
+  match l with [] => false | e :: t => xorb (tog p e) (par p t) end.
+
+Lemma fold_par p l : forall b,
+  fold_left (fun acc e => if crosses p (fst e) (snd e) then negb acc else acc) l b = xorb b (par p l).
+Proof.
+  induction l as [|e l IH]; intros b; cbn [fold_left par]; [destruct b; reflexivity|].
+  rewrite IH. unfold tog. destruct (crosses p (fst e) (snd e)), b, (par p l); reflexivity.
+Qed.
+Lemma point_inside_par p vs : point_inside p vs = par p (edges vs).
+Proof. unfold point_inside. rewrite fold_par. apply xorb_false_l. Qed.
+
+Lemma par_app p l1 l2 : par p (l1 ++ l2) = xorb (par p l1) (par p l2).
+Proof.
+  induction l1 as [|e l1 IH]; cbn [app par]; [destruct (par p l2); reflexivity|].
+  rewrite IH. destruct (tog p e), (par p l1), (par p l2); reflexivity.
+Qed.
+Lemma par_perm p l l' : Permutation l l' -> par p l = par p l'.
+Proof.
+  induction 1; cbn [par]; [reflexivity|congruence| |congruence].
+  destruct (tog p x), (tog p y), (par p l); reflexivity.
+Qed.
+
+Lemma crosses_sym p a b : crosses p a b = crosses p b a.
+Proof.
+  destruct p as [px py], a as [x1 y1], b as [x2 y2]. unfold crosses.
+  rewrite (orb_comm (Qcleb y2 py && Qcltb py y1)).
+  destruct ((Qcleb y1 py && Qcltb py y2) || (Qcleb y2 py && Qcltb py y1)) eqn:C; [|reflexivity].
+  assert (Hne : y1 <> y2).
+  { intros ->. destruct (Qcleb y2 py) eqn:A, (Qcltb py y2) eqn:B; cbn in C; try discriminate.
+    qb2p. qlra. }
+  f_equal. field. split; intros Q; apply Hne; qlra.
+Qed.
+
+Definition swap_e (e : Pt * Pt) : Pt * Pt := (snd e, fst e).
+Lemma par_swap p l : par p (map swap_e l) = par p l.
+Proof.
+  induction l as [|e l IH]; cbn [map par]; [reflexivity|]. rewrite IH. f_equal.
+  unfold tog, swap_e. cbn [fst snd]. apply crosses_sym.
+Qed.
+
+(* the closed chain of edges *)
+Fixpoint chain (a : Pt) (l : list Pt) : list (Pt * Pt) :=
+  match l with [] => [] | b :: t => (a, b) :: chain b t end.
+
+Lemma combine_chain : forall t a c, combine (a :: t) (t ++ [c]) = chain a (t ++ [c]).
+Proof. induction t as [|b t IH]; intros a c; cbn; [reflexivity|]. f_equal. apply IH. Qed.
+Lemma edges_chain v0 t : edges (v0 :: t) = chain v0 (t ++ [v0]).
+Proof. unfold edges. apply combine_chain. Qed.
+Lemma last_cons_indep : forall (l : list Pt) x d d', last (x :: l) d = last (x :: l) d'.
+Proof. induction l as [|y l IH]; intros x d d'; [reflexivity|]. cbn [last] in *. apply (IH y). Qed.
+Lemma chain_app : forall l1 a l2, chain a (l1 ++ l2) = chain a l1 ++ chain (last l1 a) l2.
+Proof.
+  induction l1 as [|b l1 IH]; intros a l2; [reflexivity|]. cbn [app chain]. rewrite IH. f_equal.
+  f_equal. destruct l1; [reflexivity|]. f_equal. change (last (b :: p :: l1) a) with (last (p :: l1) a). apply last_cons_indep.
+Qed.
+
+(* starting from the next vertex *)
+Lemma edges_rot v0 t : Permutation (edges (t ++ [v0])) (edges (v0 :: t)).
+Proof.
+  destruct t as [|v1 t]; [apply Permutation_refl|].
+  rewrite edges_chain. cbn [app]. rewrite edges_chain. cbn [chain].
+  rewrite chain_app. rewrite last_last. cbn [chain].
+  apply Permutation_sym. apply Permutation_cons_append.
+Qed.
+
+Theorem point_inside_rot p v0 t : point_inside p (t ++ [v0]) = point_inside p (v0 :: t).
+Proof. rewrite !point_inside_par. apply par_perm. apply edges_rot. Qed.
+
+Lemma chain_rev : forall l a c, map swap_e (rev (chain a (l ++ [c]))) = chain c (rev l ++ [a]).
+Proof.
+  induction l as [|b l IH]; intros a c; [reflexivity|].
+  cbn [app chain rev]. rewrite map_app, IH. cbn [map swap_e fst snd].
+  rewrite (chain_app (rev l ++ [b]) c [a]). rewrite last_last. reflexivity.
+Qed.
+
+Theorem point_inside_rev p vs : point_inside p (rev vs) = point_inside p vs.
+Proof.
+  destruct vs as [|v0 t]; [reflexivity|]. cbn [rev].
+  rewrite point_inside_rot. rewrite !point_inside_par, !edges_chain.
+  rewrite <- chain_rev. rewrite par_swap. apply par_perm. apply Permutation_sym. apply Permutation_rev.
+Qed.
+
+(* any cyclic shift *)
+Theorem point_inside_shift p l1 l2 : point_inside p (l2 ++ l1) = point_inside p (l1 ++ l2).
+Proof.
+  revert l2. induction l1 as [|a l1 IH]; intros l2; [rewrite app_nil_r; reflexivity|].
+  cbn [app]. rewrite <- point_inside_rot. rewrite <- app_assoc. rewrite <- IH.
+  rewrite <- app_assoc. reflexivity.
+Qed.
